@@ -127,6 +127,7 @@ let run () =
     | _ ->
       let o = match ws with
         | ["put"; k; v] | ["putown"; k; v] -> Some (HPut (bytes_of_hex k, bytes_of_hex v))   (* putown: the key pointer is the table's own copy *)
+        | ["putpre"; k; v; n] -> Some (HPut (bytes_of_hex k, List.filteri (fun i _ -> i < int_of_string n) (bytes_of_hex v)))   (* put v, then put the first n bytes of the table's own buffer: as one put of the prefix *)
         | ["putnull"; k] -> Some (HPutNullData (bytes_of_hex k))
         | ["putstr"; k; s] -> Some (HPutStr (bytes_of_hex k, bytes_of_hex s))
         | ["putstrnull"; k] -> Some (HPutStrNull (bytes_of_hex k))
